@@ -451,7 +451,10 @@ def gen_cases(ctx, n):
         programs = [gen_program(r, [m for m in importable if m not in failing], failing, allow_bad=bool(j)) for j in range(2)]
         ftext = "\n".join(["from %s import *" % H] + ([r.choice(["import os", "from %s import *" % r.choice(importable)])] if importable else [])
                           + ["_z = 1"]) + "\n"
-        fileprogs = [{"dir": PD, "file": "%s/main.py" % PD, "text": ftext}]
+        # where the program's own directory already sits on sys.path of the inspecting process (the decoy's
+        # directory, the root, is always first)
+        fileprogs = [{"dir": PD, "file": "%s/main.py" % PD, "text": ftext,
+                      "on_path": r.choice(["absent", "last", "second", "twice", "last"])}]
         # bin/collect-exports with 1-4 modules per invocation (overlapping export lists, sometimes a failing one)
         cli = None
         if i % 2 == 0 and importable:
@@ -781,7 +784,15 @@ def _impl_case(c):
         # replace_star_imports on the programs (in memory, then the program files)
         progs = [(text, None) for text in c["programs"]] + \
                 [(fp["text"], os.path.join(root, fp["file"])) for fp in c.get("fileprogs", [])]
-        for text, fname in progs:
+        onpath = [None] * len(c["programs"]) + [fp.get("on_path", "absent") for fp in c.get("fileprogs", [])]
+        for (text, fname), where in zip(progs, onpath):
+            saved_path = list(sys.path)
+            if fname and where != "absent":
+                d_ = os.path.dirname(fname)
+                if where in ("last", "twice"):
+                    sys.path.append(d_)
+                if where in ("second", "twice"):
+                    sys.path.insert(1, d_)
             blocks_in = []
             t = S.SourceToSourceFileImportsTransformation(PythonBlock(text))
             for b in t.blocks:
@@ -807,6 +818,7 @@ def _impl_case(c):
                 outp = {"exc": type(e).__name__, "msg": str(e)[:300]}
             finally:
                 S.SourceToSourceImportBlockTransformation.pretty_print = orig
+                sys.path[:] = saved_path
             out["programs"].append(outp)
         for m in c["mods"]:
             if m.get("late"):
